@@ -2,8 +2,11 @@
 # usage: tools_revert_check.sh <fix-commit-sha> <Cxx>... : temporarily reverts a fix commit in /repo's
 # working tree, runs the quick checks (expects VIOLATION), and restores the tree.
 sha=$1; shift
+(
+flock 9
 cd /repo || exit 2
 git diff --quiet || { echo "repo dirty"; exit 2; }
 trap 'git -C /repo checkout -q -- .' EXIT
 git diff "$sha^" "$sha" | git apply -R || exit 2
-for c in "$@"; do (cd /verif && ./check "$c" quick | cut -c1-260 | head -12; echo "exit=${PIPESTATUS[0]}"); done
+for c in "$@"; do (cd /verif && ./check "$c" quick > /tmp/revert-$$.out 2>&1; code=$?; head -3 /tmp/revert-$$.out | cut -c1-260; echo "REVERT $sha $c exit=$code"; rm -f /tmp/revert-$$.out); done
+) 9>/tmp/repo-patch.lock
